@@ -206,15 +206,17 @@ theorem cur_init (home : Uri → Dir) (cfg : Cfg) : Cur home cfg init :=
 theorem older_init : Older init :=
   ⟨by intro p hp; simp [init] at hp, by intro k m hm; simp [init] at hm⟩
 
-/-- what a `CompileException` out of `get_template` leaves behind -/
+/-- what a `CompileException` out of `get_template` leaves behind: `f` is the file that failed to compile -/
 theorem get_compile_error {cfg : Cfg} {s s1 : State} {u : Uri} (hi : Inv cfg s)
     (hfail : getTemplate cfg s u = (.error .compile, s1)) :
-    get? s1.coll u = none ∧ s1.fs = s.fs ∧ s1.clock = s.clock ∧ s1.mods = s.mods ∧
-      (cfg.moddir = true → ∀ m, s.mods u = some m → m.time < s.clock) := by
+    ∃ f file, s.fs f = some file ∧ file.broken = true ∧
+      get? s1.coll u = none ∧ s1.fs = s.fs ∧ s1.clock = s.clock ∧ s1.mods = s.mods ∧
+      (cfg.moddir = true → ∀ m, s.mods u = some m → m.time < s.clock ∨ m.src ≠ f) := by
   have key : ∀ (s0 : State), s0.fs = s.fs → s0.clock = s.clock → s0.mods = s.mods → get? s0.coll u = none →
       ∀ f, load cfg s0 u f = (.error .compile, s1) →
+      ∃ f file, s.fs f = some file ∧ file.broken = true ∧
       get? s1.coll u = none ∧ s1.fs = s.fs ∧ s1.clock = s.clock ∧ s1.mods = s.mods ∧
-        (cfg.moddir = true → ∀ m, s.mods u = some m → m.time < s.clock) := by
+      (cfg.moddir = true → ∀ m, s.mods u = some m → m.time < s.clock ∨ m.src ≠ f) := by
     intro s0 h1 h2 h3 hn f hl
     rcases hc : construct cfg s0 u f with ⟨r, s'⟩
     cases r with
@@ -224,11 +226,12 @@ theorem get_compile_error {cfg : Cfg} {s s1 : State} {u : Uri} (hi : Inv cfg s)
       injection hl with hl1 hl2; injection hl1 with hl1; subst hl1; subst hl2
       obtain ⟨file, hf, hb, hr, hs'⟩ := construct_compile_error hc
       subst hs'
-      refine ⟨get?_erase_self _ _, h1, h2, h3, ?_⟩
+      refine ⟨f, file, by rw [← h1]; exact hf, hb, get?_erase_self _ _, h1, h2, h3, ?_⟩
       intro hmd m hm
-      have h4 := hr hmd m (by rw [h3]; exact hm)
       have h5 := hi.mtime_le f file (by rw [← h1]; exact hf)
-      omega
+      rcases hr hmd m (by rw [h3]; exact hm) with h4 | h4
+      · left; omega
+      · right; exact h4
   cases he : get? s.coll u with
   | none =>
     cases hd : firstDir cfg.ndirs s.fs u with
